@@ -149,6 +149,20 @@ def _gen_variance(rng, x: float) -> float:
     return min(sd * sd, 1e300)
 
 
+def _gen_variances(rng, n: int, p_some: float):
+    """None, ordinary, exactly zero everywhere (loaders use that for 'no uncertainty'; the su is
+    then 0, not absent), or zeros mixed in."""
+    if rng.random() >= p_some:
+        return None
+    r = rng.random()
+    if r < 0.15:
+        return [rng.choice([0.0, 0.0, -0.0]) for _ in range(n)]
+    v = [abs(gen_float(rng)) for _ in range(n)]
+    if r < 0.3:
+        v[rng.randrange(n)] = 0.0
+    return v
+
+
 def gen_val(rng) -> dict:
     r = rng.random()
     if r < 0.5:
@@ -354,9 +368,9 @@ def generate(rng, tier, i):
                 n = rng.choice([1, 2, 3, 10, 50])
                 ops.append({"op": "with_powder", "src": src, "id": k, "dim": dim, "n": n,
                             "values": [gen_float(rng) for _ in range(n)],
-                            "variances": [abs(gen_float(rng)) for _ in range(n)] if rng.random() < 0.7 else None,
+                            "variances": _gen_variances(rng, n, 0.7),
                             "coord": sorted(abs(gen_float(rng)) for _ in range(n)),
-                            "coord_var": [abs(gen_float(rng)) for _ in range(n)] if rng.random() < 0.3 else None,
+                            "coord_var": _gen_variances(rng, n, 0.3),
                             "unit": rng.choice(["one", "one", "counts", "us"]),
                             "name": rng.choice(["", "", "intensity_net", "intensity_norm", "intensity_total"]),
                             "comment": gen_comment(rng)})
